@@ -4,6 +4,7 @@ import (
 	"hash/fnv"
 	"math/rand"
 	"sync"
+	"time"
 )
 
 // AtIndex injects one fault at the k-th gated controller call.
@@ -86,4 +87,27 @@ func (f *RandomFaults) Decide(w *World, c *Call, index int) FaultKind {
 	}
 	f.Hits++
 	return k
+}
+
+// Outage fails every gated controller call matching (Verb, Kind) - empty matches all - while the
+// virtual clock is inside [From, To): a long, finite unavailability ("all Job creates fail for
+// five minutes"). The per-item back-off of the workqueue makes such a burst dozens of failures long.
+type Outage struct {
+	Verb     string
+	Kind     Kind
+	From, To time.Duration // relative to the epoch
+	Hits     int
+	Inner    FaultPlan
+}
+
+func (o *Outage) Decide(w *World, c *Call, index int) FaultKind {
+	at := w.Clk.Now().Sub(Epoch)
+	if at >= o.From && at < o.To && (o.Verb == "" || o.Verb == c.Verb) && (o.Kind == "" || o.Kind == c.Kind) {
+		o.Hits++
+		return F500Before
+	}
+	if o.Inner != nil {
+		return o.Inner.Decide(w, c, index)
+	}
+	return FNone
 }
